@@ -99,8 +99,12 @@ func genTime(r *Rng) time.Time {
 		nsec = r.Intn(1e9)
 	}
 	off := 0
-	if r.P(1, 2) {
+	switch r.Intn(4) {
+	case 0:
 		off = r.Range(-14*60, 14*60) * 60
+	case 1:
+		// a small pool, so that the same (not whole-hour) offsets recur within a file
+		off = r.PickInt([]int{5*3600 + 45*60, -(3*3600 + 30*60), 19800, 3600, -9 * 3600, 12*3600 + 45*60})
 	}
 	loc := time.UTC
 	if off != 0 {
@@ -200,6 +204,11 @@ func GenValue(v reflect.Value, r *Rng, o GenOpts, tag reflect.StructTag) {
 		// A non-nil pointer to a nil pointer has no Avro representation the
 		// library can write (a matter for the round-trip property, not for
 		// the ones simulated here): keep inner levels non-nil.
+		if nullWrapper(t.Elem()) && !p.Elem().Field(0).Field(1).Bool() {
+			// a non-nil pointer to an invalid wrapper is written as its (zero)
+			// payload, not as null: generate pointees valid
+			p.Elem().Field(0).Field(1).SetBool(true)
+		}
 		for e := p.Elem(); e.Kind() == reflect.Pointer && e.IsNil(); e = e.Elem() {
 			q := reflect.New(e.Type().Elem())
 			if q.Elem().Kind() != reflect.Pointer {
